@@ -18,6 +18,10 @@ func MinU64(a uint64, b uint64) uint64 {
 
 // The largest integer x such that x**2 is less than or equal to n.
 func IntegerSquareroot(n uint64) uint64 {
+	if n == ^uint64(0) {
+		// (n + 1) would overflow; the spec returns UINT64_MAX_SQRT here.
+		return 4294967295
+	}
 	x := n
 	y := (x + 1) >> 1
 	for y < x {
